@@ -38,10 +38,15 @@ def plainOf (m : MethodSpec) (args : Args) (p : Param) : List (String × List Ch
     if isPathParam m p.name then []
     else match getKV args p.name with
       | some (.scalar (.txt s)) => [(aliasOf m p.name, s)]
+      | some (.structV false _ t) => [(aliasOf m p.name, t)]
       | _ => []
   | .struct fs =>
     match getKV args p.name with
     | some (.struct false vals) => fs.filterMap (fieldBinding vals)
+    | _ => []
+  | .structElsewhere fs =>
+    match getKV args p.name with
+    | some (.structV false vals _) => fs.filterMap (fieldBinding vals)
     | _ => []
   | _ => []
 
@@ -78,7 +83,7 @@ theorem run_fields_absent (args : Args) (pn : String)
 
 /-- one parameter's statements, run on the arguments, set exactly what the property lists for it -/
 theorem run_paramOps (m : MethodSpec) (args : Args) (p : Param)
-    (hq : p.kind ≠ .qualOther)
+    (hq : p.kind ≠ .qualOther) (he : isElsewhere p = false)
     (hn : isStructParam p = true → fieldsOf p ≠ [] → ∀ v, getKV args p.name ≠ some (.struct true v)) :
     runQueryOps args (specParamOps m p) = some (plainOf m args p) := by
   cases hk : p.kind with
@@ -92,6 +97,7 @@ theorem run_paramOps (m : MethodSpec) (args : Args) (p : Param)
       | some a =>
         cases a with
         | scalar v => cases v <;> rfl
+        | structV n v t => cases n <;> rfl
         | _ => rfl
   | struct fs =>
     simp only [specParamOps, plainOf, hk]
@@ -111,7 +117,9 @@ theorem run_paramOps (m : MethodSpec) (args : Args) (p : Param)
       | scalar v => exact run_fields_absent args p.name (by simp [ha]) (by simp [ha]) fs
       | dict v => exact run_fields_absent args p.name (by simp [ha]) (by simp [ha]) fs
       | ctx v => exact run_fields_absent args p.name (by simp [ha]) (by simp [ha]) fs
+      | structV n v t => exact run_fields_absent args p.name (by simp [ha]) (by simp [ha]) fs
   | qualOther => exact absurd hk hq
+  | structElsewhere fs0 => simp [isElsewhere, hk] at he
   | ctx => simp [specParamOps, plainOf, hk, runQueryOps]
   | dict => simp [specParamOps, plainOf, hk, runQueryOps]
   | unsupported => simp [specParamOps, plainOf, hk, runQueryOps]
@@ -135,6 +143,14 @@ theorem handleParam_slots (verb : Verb) (pp : List String) (st st' : Cooked) (p 
       simp only [hp, Bool.false_eq_true, ↓reduceIte, Except.ok.injEq] at h <;> subst h <;>
       simp [isDictParam, isCtxParam, structLike, isStructParam, isQualOther, hk]
   | scalar =>
+    simp only [hk] at h
+    by_cases hp : p.ptr = true <;> by_cases hm : p.name ∈ pp
+    all_goals
+      have hc : pp.contains p.name = decide (p.name ∈ pp) := by simp
+      simp only [hc, hm, decide_true, decide_false, hp, Bool.false_eq_true, ↓reduceIte, Except.ok.injEq] at h
+      subst h
+      simp [isDictParam, isCtxParam, structLike, isStructParam, isQualOther, hk]
+  | structElsewhere fs0 =>
     simp only [hk] at h
     by_cases hp : p.ptr = true <;> by_cases hm : p.name ∈ pp
     all_goals
@@ -415,6 +431,7 @@ structure MethodOK (m : MethodSpec) : Prop where
   fields : ∀ p ∈ m.params, ((fieldsOf p).map (·.name)).Nodup
   fieldKeys : ∀ p ∈ m.params, ∀ f ∈ fieldsOf p, (fieldKey f).isEmpty = false
   noQual : ∀ p ∈ m.params, p.kind ≠ .qualOther
+  noElsewhere : ∀ p ∈ m.params, isElsewhere p = false
   oneDict : m.verb.hasBody = false → (m.params.filter isDictParam).length ≤ 1
 
 /-- the argument values a call may carry for the theorems to apply (¬F_nilStructDeref, ¬F_pathArgBrace) -/
@@ -466,10 +483,10 @@ theorem query_eq_spec (m : MethodSpec) (c : Cooked) (d : PathDir) (subs : List P
     dictSets args c.dict = dictBindings args m.params := by
   obtain ⟨_, _, hcook⟩ := cookedFor_unpack m c d subs h
   constructor
-  · rw [queryOps_eq m c ok.names ok.fields ok.fieldKeys ok.aliasKeys ok.aliasVals hcook, plainBindings_eq]
+  · rw [queryOps_eq m c ok.names ok.fields ok.fieldKeys ok.aliasKeys ok.aliasVals ok.noElsewhere hcook, plainBindings_eq]
     apply runQueryOps_flatMap
     intro p hp
-    exact run_paramOps m args p (ok.noQual p hp) (aok.noNilStruct hv p hp)
+    exact run_paramOps m args p (ok.noQual p hp) (ok.noElsewhere p hp) (aok.noNilStruct hv p hp)
   · obtain ⟨hd, _, _, _⟩ := cookParams_slots _ _ _ _ _ hcook
     rw [hd, dictBindings_le_one args m.params (ok.oneDict hv)]
     have e : (fun p => isDictParam p && !m.verb.hasBody) = isDictParam := by
@@ -500,14 +517,16 @@ theorem slots_eq_spec (m : MethodSpec) (c : Cooked) (d : PathDir) (subs : List P
     | true =>
       simp only [↓reduceIte]
       rw [hb, lastNamed_le_one structLike _ m.params (hone rfl)]
-      have : m.params.find? structLike = m.params.find? isStructParam := by
+      have : m.params.find? structLike = m.params.find? isStructAny := by
         apply find?_congr_mem
         intro p hp
         have := ok.noQual p hp
-        unfold structLike isQualOther
+        have he := ok.noElsewhere p hp
+        unfold structLike isStructAny isQualOther
+        rw [he]
         cases hk : p.kind <;> simp_all
       rw [this]
-      cases m.params.find? isStructParam <;> rfl
+      cases m.params.find? isStructAny <;> rfl
   · rw [hc, lastNamed_le_one isCtxParam _ m.params ok.oneCtx]
     unfold specCtx
     cases m.params.find? isCtxParam with
@@ -566,7 +585,7 @@ theorem noBrace_of_contains (s : List Char) (h : s.contains '{' = false) : noBra
 
 theorem region_wf (i : IfaceSpec) (calls : List Call) (h : region i calls = "WF") :
     structOk i = true ∧ F_ptrDict i = false ∧
-    F_twoDicts i = false ∧ F_qualScalar i = false ∧ F_nilStructDeref i calls = false ∧
+    F_twoDicts i = false ∧ F_qualScalar i = false ∧ F_structElsewhere i = false ∧ F_headerValue i = false ∧ F_nilStructDeref i calls = false ∧
     F_pathArgBrace i calls = false := by
   unfold region at h
   cases h0 : shapeOk i <;> simp only [h0, Bool.not_false, Bool.not_true, Bool.false_eq_true, ↓reduceIte] at h
@@ -580,10 +599,14 @@ theorem region_wf (i : IfaceSpec) (calls : List Call) (h : region i calls = "WF"
   case true => exact absurd h (by decide)
   cases h5 : F_qualScalar i <;> simp only [h5, Bool.false_eq_true, ↓reduceIte] at h
   case true => exact absurd h (by decide)
+  cases h5b : F_structElsewhere i <;> simp only [h5b, Bool.false_eq_true, ↓reduceIte] at h
+  case true => exact absurd h (by decide)
+  cases h5c : F_headerValue i <;> simp only [h5c, Bool.false_eq_true, ↓reduceIte] at h
+  case true => exact absurd h (by decide)
   cases h6 : F_nilStructDeref i calls <;> simp only [h6, Bool.false_eq_true, ↓reduceIte] at h
   case true => exact absurd h (by decide)
   cases h7 : F_pathArgBrace i calls <;> simp only [h7, Bool.false_eq_true, ↓reduceIte] at h
   case true => exact absurd h (by decide)
-  exact ⟨hso, rfl, rfl, rfl, rfl, rfl⟩
+  exact ⟨hso, rfl, rfl, rfl, rfl, rfl, rfl, rfl⟩
 
 end ShootVerif.Rest
